@@ -26,6 +26,13 @@ def run(ck):
                        "strings whose sign follows white space for get_uint64, and errno for null/container sources, are not judged",
                        "all 2^64 values: lattice + seeded random patterns, not exhaustive"]
     ck.mc("MCLimbs", "C10_limbs.cfg", workers=4, timeout=600)
+    # json_object_int_inc for EVERY stored value (either store) and EVERY increment - 2^64 x 2^64 combinations symbolically (Apalache,
+    # exact integers): the result is the true sum clamped to INT64_MIN..UINT64_MAX, representable in its store, and no C expression
+    # of the function leaves the range of its type; the signed negation of the increment (json-c as found, D10c) must break it
+    ck.prove("IntIncInd", "CInit", "Init", "IndInv", 0)
+    ck.prove("IntIncInd", "CInit", "IndInv", "IndInv", 1)
+    ck.prove("IntIncInd", "CInit", "IndInv", "Safety", 0)
+    ck.prove("IntIncInd", "CInitBad", "IndInv", "IndInv", 1, must_fail=True)
     exe = vlib.build("san", vlib.harness_sources(), "vh")
     n = 30000 if thorough else 500
     tp = os.path.join(ck.dir, "v.ndjson")
